@@ -4,11 +4,13 @@ import (
 	"bytes"
 	"encoding/json"
 	"fmt"
+	"io"
 	"math/rand"
 
 	"verifharness/abs"
 
 	"github.com/fiorix/go-diameter/v4/diam"
+	"github.com/fiorix/go-diameter/v4/diam/datatype"
 	"github.com/fiorix/go-diameter/v4/diam/dict"
 )
 
@@ -34,6 +36,9 @@ type codecLine struct {
 	Berr  string `json:"berr"`
 	Bytes []int  `json:"bytes"`
 	HLen  int    `json:"hlen"` // Header.MessageLength after assembly
+	// bytes produced by WriteTo (serialised into the library's pooled buffer, which the
+	// harness fills with a non-zero pattern beforehand)
+	WBytes []int `json:"wbytes"`
 	// read back
 	Rok    bool      `json:"rok"`
 	Rerr   string    `json:"rerr"`
@@ -57,8 +62,29 @@ func safely(f func()) (perr string) {
 	return ""
 }
 
+// poisonPools leaves a non-zero pattern in the library's pooled 1 KiB write and read
+// buffers (a 1024-byte message of 0xA5 bytes is written and read a few times), so
+// that bytes a later operation forgets to set are visible.
+var poisonWire []byte
+
+func poisonPools(dp *dict.Parser) {
+	if poisonWire == nil {
+		pay := bytes.Repeat([]byte{0xA5}, 996)
+		pm := diam.NewMessage(abs.VCmd, 0x80, abs.VApp, 0xA5A5A5A5, 0xA5A5A5A5, dp)
+		pm.NewAVP(uint32(9010), 0xA5&^0x80, 0, datatype.OctetString(pay))
+		poisonWire, _ = pm.Serialize()
+		poisonMsg = pm
+	}
+	for i := 0; i < 2; i++ {
+		poisonMsg.WriteTo(io.Discard)
+		diam.ReadMessage(bytes.NewReader(poisonWire), dp)
+	}
+}
+
+var poisonMsg *diam.Message
+
 func runCodecCase(c *codecCase, dp *dict.Parser) codecLine {
-	l := codecLine{Ev: "msg", ID: c.ID, Src: c.Src, Dict: c.Dict, M: c.M, Bytes: []int{}, DHdr: emptyHdr(), DAVPs: []abs.AVP{}, Bytes2: []int{}}
+	l := codecLine{Ev: "msg", ID: c.ID, Src: c.Src, Dict: c.Dict, M: c.M, Bytes: []int{}, WBytes: []int{}, DHdr: emptyHdr(), DAVPs: []abs.AVP{}, Bytes2: []int{}}
 	var wire []byte
 	if len(c.Bytes) > 0 {
 		l.Ev = "wire"
@@ -80,6 +106,13 @@ func runCodecCase(c *codecCase, dp *dict.Parser) codecLine {
 			}
 			wire = b
 			l.Bytes = abs.Ints(b)
+			poisonPools(dp)
+			var wb bytes.Buffer
+			if _, err := gm.WriteTo(&wb); err != nil {
+				l.Berr = "WriteTo: " + err.Error()
+				return
+			}
+			l.WBytes = abs.Ints(wb.Bytes())
 			l.Built = true
 		})
 		if p != "" {
@@ -153,6 +186,15 @@ func Codec(a Args) error {
 	id := 0
 	if a.Cases != "" {
 		err = ReadLines(a.Cases, func(line []byte) error {
+			if bytes.Contains(line, []byte(`"ops"`)) {
+				var lc lenbookCase
+				if err := json.Unmarshal(line, &lc); err != nil {
+					return err
+				}
+				id++
+				out.Emit(runLenbook(id, &lc, vp))
+				return nil
+			}
 			var c codecCase
 			if err := json.Unmarshal(line, &c); err != nil {
 				return err
@@ -225,4 +267,87 @@ func Codec(a Args) error {
 		out.Emit(runCodecCase(&c, dict.Default))
 	}
 	return nil
+}
+
+// ---- LenBook (spec/LenBook.tla): MessageLength book-keeping under assembly operations
+
+type lenbookOp struct {
+	Op string `json:"op"`
+	N  int    `json:"n"`
+}
+type lenbookCase struct {
+	Start string      `json:"start"`
+	Ops   []lenbookOp `json:"ops"`
+}
+type lenbookAfter struct {
+	HLen  int   `json:"hlen"`
+	SLen  int   `json:"slen"`
+	Order []int `json:"order"`
+}
+type lenbookLine struct {
+	Ev    string         `json:"ev"`
+	ID    int            `json:"id"`
+	Start string         `json:"start"`
+	Ops   []lenbookOp    `json:"ops"`
+	After []lenbookAfter `json:"after"`
+	Err   string         `json:"err"`
+}
+
+type lbStruct struct {
+	A datatype.OctetString `avp:"V-OctetString"`
+	B datatype.UTF8String  `avp:"V-UTF8String"`
+}
+
+func runLenbook(id int, c *lenbookCase, dp *dict.Parser) lenbookLine {
+	l := lenbookLine{Ev: "lenbook", ID: id, Start: c.Start, Ops: c.Ops, After: []lenbookAfter{}}
+	p := safely(func() {
+		var m *diam.Message
+		if c.Start == "answer" {
+			req := diam.NewMessage(abs.VCmd, 0x80, abs.VApp, 7, 8, dp)
+			m = req.Answer(2001)
+		} else {
+			m = diam.NewMessage(abs.VCmd, 0x80, abs.VApp, 7, 8, dp)
+		}
+		for k, op := range c.Ops {
+			pay := bytes.Repeat([]byte{byte(k + 1)}, op.N)
+			switch op.Op {
+			case "NewAVP":
+				if _, err := m.NewAVP(uint32(9010), 0x40, 0, datatype.OctetString(pay)); err != nil {
+					l.Err = err.Error()
+					return
+				}
+			case "AddAVP":
+				m.AddAVP(diam.NewAVP(9010, 0x40, 0, datatype.OctetString(pay)))
+			case "InsertAVP":
+				m.InsertAVP(diam.NewAVP(9010, 0x40, 0, datatype.OctetString(pay)))
+			case "Marshal":
+				if err := m.Marshal(&lbStruct{A: datatype.OctetString(pay), B: datatype.UTF8String([]byte{byte(k + 1), byte(k + 1)})}); err != nil {
+					l.Err = err.Error()
+					return
+				}
+			}
+			b, err := m.Serialize()
+			if err != nil {
+				l.Err = err.Error()
+				return
+			}
+			a := lenbookAfter{HLen: int(m.Header.MessageLength), SLen: len(b), Order: []int{}}
+			for _, av := range m.AVP {
+				s := av.Data.Serialize()
+				switch {
+				case av.Code == 268:
+					a.Order = append(a.Order, 0)
+				case len(s) > 0:
+					a.Order = append(a.Order, int(s[0]))
+				default:
+					a.Order = append(a.Order, -1)
+				}
+			}
+			l.After = append(l.After, a)
+		}
+	})
+	if p != "" {
+		l.Err = p
+	}
+	return l
 }
